@@ -1,13 +1,13 @@
 package props
 
 import (
-	"strings"
 	"bytes"
 	"crypto/ecdsa"
 	"crypto/ed25519"
 	"crypto/elliptic"
 	"fmt"
 	"math/big"
+	"strings"
 	"testing"
 
 	cose "github.com/veraison/go-cose"
